@@ -10,6 +10,7 @@
 #include <pistache/router.h>
 #include <condition_variable>
 #include <deque>
+#include <functional>
 #include <dirent.h>
 #include <sys/resource.h>
 
@@ -26,6 +27,7 @@ static void count(const std::string& k, long n = 1) { std::lock_guard<std::mutex
 static std::mutex g_vm;
 static void viol(const std::string& key, const std::string& what, const std::string& wt) { std::lock_guard<std::mutex> g(g_vm); violation(key, what, wt); }
 
+static bool wait_for(std::function<bool()> f, double sec) { double end = lv::now() + sec; while (lv::now() < end) { if (f()) return true; lv::msleep(2); } return f(); }
 static std::string tag_of(const std::string& method, const std::string& path, const std::string& body) {
     return "T[" + method + " " + path + " #" + std::to_string(fnv(body) % 100000) + "]";
 }
@@ -42,6 +44,10 @@ struct Responder {
 static Responder* g_responder = nullptr;
 static std::atomic<int> g_slow_ms{0};
 static std::atomic<long> g_handled{0};
+// a request that stays in flight until the harness lets it go (shutdown mode 8), and a handler that shuts the endpoint down itself (mode 9)
+static std::mutex g_gate_m; static std::condition_variable g_gate_cv; static bool g_gate_open = false;
+static std::atomic<int> g_holding{0}, g_hold_timed_out{0}, g_quit_done{0}, g_quit_threw{0};
+static Http::Endpoint* g_ep = nullptr;
 
 static Rest::Route::Result handle(const Rest::Request& req, Http::ResponseWriter resp, const char* method) {
     g_handled++;
@@ -61,6 +67,12 @@ static std::shared_ptr<Rest::Router> make_router() {
     r->addRoute(Http::Method::Head, "/only-head", [](const Rest::Request req, Http::ResponseWriter w) { return handle(req, std::move(w), "HEAD"); });
     // a large answer (n KiB): the client that asked for it leaves while most of it is still queued
     r->addRoute(Http::Method::Get, "/blob/:n", [](const Rest::Request req, Http::ResponseWriter w) { g_handled++; size_t n = (size_t)req.param(":n").as<int>() * 1024; w.send(Http::Code::Ok, std::string(n, 'b')); return Rest::Route::Result::Ok; });
+    r->addRoute(Http::Method::Get, "/hold/:x", [](const Rest::Request req, Http::ResponseWriter w) { g_handled++; g_holding++;
+        { std::unique_lock<std::mutex> lk(g_gate_m); if (!g_gate_cv.wait_for(lk, std::chrono::seconds(20), [] { return g_gate_open; })) g_hold_timed_out++; }
+        try { w.send(Http::Code::Ok, tag_of("GET", req.resource(), "")); } catch (const std::exception&) { } return Rest::Route::Result::Ok; });
+    r->addRoute(Http::Method::Get, "/quit", [](const Rest::Request req, Http::ResponseWriter w) { g_handled++;
+        try { if (g_ep) g_ep->shutdown(); } catch (const std::exception& e) { g_quit_threw++; }
+        try { w.send(Http::Code::Ok, tag_of("GET", req.resource(), "")); } catch (const std::exception&) { } g_quit_done++; return Rest::Route::Result::Ok; });
     r->addRoute(Http::Method::Get, "/only-get", [](const Rest::Request req, Http::ResponseWriter w) { return handle(req, std::move(w), "GET"); });
     return r;
 }
@@ -167,7 +179,8 @@ static bool port_refuses(int port) { lv::Conn c; bool ok = c.open_to(port); retu
 
 static void run_config(long idx, int workers, int clients, int nreq, int shutdownMode, uint64_t seed) {
     // shutdownMode: 0 after load (idle, connections closed), 1 idle with connections open, 2 mid-load, 3 slow handlers in flight, 4 before any load, 5 twice,
-    // 6 after silent connections on every worker ran into a 1 s read time-out, 7 while accept fails for lack of descriptors
+    // 6 after silent connections on every worker ran into a 1 s read time-out, 7 while accept fails for lack of descriptors,
+    // 8 while requests are in flight whose handlers do not finish before shutdown() has returned, 9 from inside a handler (a worker thread)
     std::string cfg = "workers=" + std::to_string(workers) + " clients=" + std::to_string(clients) + " requests=" + std::to_string(nreq) + " shutdown=" + std::to_string(shutdownMode);
     set_case(idx, Json().num("i", idx).str("phase", "c09").str("config", cfg).done());
     int threads0 = lv::thread_count();
@@ -210,13 +223,38 @@ static void run_config(long idx, int workers, int clients, int nreq, int shutdow
         Rng r(seed); lv::msleep(r.range(5, 60));
         count("shutdowns_with_failing_accept");
     }
+    std::vector<std::unique_ptr<lv::Conn>> held;
+    if (shutdownMode == 8) {
+        { std::lock_guard<std::mutex> g(g_gate_m); g_gate_open = false; } g_holding = 0; g_hold_timed_out = 0;
+        for (int k = 0; k < workers + 1; k++) { held.emplace_back(new lv::Conn()); if (held.back()->open_to(port)) held.back()->send_all("GET /hold/h" + std::to_string(k) + " HTTP/1.1\r\nHost: x\r\n\r\n"); }
+        wait_for([&] { return g_holding.load() >= 1; }, 5.0 * lv::load_factor());
+        lv::msleep(30);
+        count("requests_held_in_flight_at_shutdown", g_holding.load());
+    }
+    if (shutdownMode == 9) { g_ep = ep; g_quit_done = 0; g_quit_threw = 0; }
     // shutdown + destruction must return: a watchdog turns a hang into a witness
     std::atomic<bool> done{false};
     std::thread dog([&] { double end = lv::now() + 30.0 * lv::load_factor(); while (!done.load() && lv::now() < end) lv::msleep(20); if (!done.load()) { viol("c09:shutdown-does-not-return:mode" + std::to_string(shutdownMode), "shutdown()/destruction did not return within the bound (" + cfg + ")", Json().str("config", cfg).done()); g_distinct.flush(); _exit(3); } });
-    ep->shutdown();
+    if (shutdownMode == 9) {
+        // the handler of GET /quit calls shutdown() on its worker thread; destruction follows from here once it has returned
+        lv::Conn q; if (q.open_to(port)) q.send_all("GET /quit HTTP/1.1\r\nHost: x\r\n\r\n");
+        bool fin = wait_for([&] { return g_quit_done.load() > 0; }, 20.0 * lv::load_factor());
+        if (!fin) viol("c09:shutdown-does-not-return:from-a-handler", "shutdown() called from inside a request handler did not return (" + cfg + ")", Json().str("config", cfg).done());
+        else if (g_quit_threw.load()) viol("c09:shutdown-throws:from-a-handler", "shutdown() called from inside a request handler threw (" + cfg + ")", Json().str("config", cfg).done());
+        else count("shutdowns_from_a_handler");
+        g_ep = nullptr;
+        if (!fin) { g_distinct.flush(); _exit(3); }
+    }
+    else ep->shutdown();
+    if (shutdownMode == 8) {
+        // shutdown() has returned: the held handlers must still be waiting (their gate opens only now)
+        if (g_holding.load() > 0 && g_hold_timed_out.load() > 0) viol("c09:shutdown-waits-for-requests-in-flight", "shutdown() returned only after the handlers of the requests in flight had given up waiting (20 s): it does not return while a handler is running (" + cfg + ")", Json().str("config", cfg).done());
+        { std::lock_guard<std::mutex> g(g_gate_m); g_gate_open = true; } g_gate_cv.notify_all();
+    }
     if (shutdownMode == 5) ep->shutdown();
     delete ep;
     done = true; dog.join();
+    held.clear();
     exhaust.end(); pendingConn.close_now();
     for (auto& t : th) if (t.joinable()) t.join();
     idleConns.clear();
@@ -298,7 +336,7 @@ int main(int argc, char** argv) {
         int workers = (int)std::vector<int>{1, 2, 4, 8}[r.below(4)];
         int clients = r.range(1, (int)g_opts.num("maxclients", 12));
         int nreq = r.range(5, (int)g_opts.num("maxreq", 120));
-        int mode = (int)(n % 8);
+        int mode = (int)(n % 10);
         uint64_t seed = r.next();
         emit(Json().str("t", "progress").num("i", idx).num("stride", 1).done());
         if (idx <= skip) continue;
